@@ -168,7 +168,9 @@ func (c *Cluster) propose(t structs.MessageType, buf []byte) (any, error) {
 		c.curOut.Appended = append(c.curOut.Appended, idx)
 		c.curOut.Resp = resp
 	}
-	c.Run.Eventf("commit %d type=%d %s -> %s", idx, t, desc, simkit.Trunc(c.Results[idx], 200))
+	if !strings.HasPrefix(desc, "ae:") { // the agent walks its tables in map order: C16 logs its calls per sync, sorted
+		c.Run.Eventf("commit %d type=%d %s -> %s", idx, t, desc, simkit.Trunc(c.Results[idx], 200))
+	}
 	if c.OnCommit != nil {
 		c.OnCommit(e, resp)
 	}
@@ -247,6 +249,17 @@ func (c *Cluster) FailPending() {
 }
 
 func (c *Cluster) ClearLostReply() { c.lostReply = false }
+
+// ApplyRaw proposes a request built by the caller (an RPC endpoint stand-in); fault as for a
+// client command. No failover follows a lost reply.
+func (c *Cluster) ApplyRaw(t structs.MessageType, msg any, desc, fault string) (resp any, err error) {
+	c.main(func() {
+		c.curFault, c.curGap, c.curDesc = fault, 0, desc
+		resp, err = consul.VerifRaftApply(c.Shell, t, msg)
+	})
+	c.lostReply = false
+	return resp, err
+}
 
 // DoNoDrain runs a client command without waiting for background work (usable from a
 // goroutine other than the scheduler's).
